@@ -166,7 +166,7 @@ SPECS.update({
     "C15": dict(
         harness="histories", src=["harness/histories.cpp"], plan=lambda tier: [dict(defs=defs(2), args=dict(mode="c15", bufsz=2, hbufsz=2), nshards=16)], level="model_checking",
         rule="alphabet of 20 operations (13 library-level, two of them under a second key that shares its first bytes with the first, encrypt/decrypt/verify incl. failing ones and multi-chunk files whose blocks end in padding-like bytes, 7 command-line vectors incl. parses that fail early and inside a short-option cluster); ALL sequences up to depth 3 "
-             "(thorough: depth 4 with a reduced alphabet at the last level), each history in one fresh forked process on the canonical schedule; differential oracle: the i-th operation observes exactly what it observes alone in a fresh process; "
+             "(thorough: depth 4, full alphabet), each history in one fresh forked process on the canonical schedule; differential oracle: the i-th operation observes exactly what it observes alone in a fresh process; "
              "state = canonical process-wide state after each step; distinct = (depth, first op, last op) classes",
         assumptions=ASSUME_FILE + ["random IV seed of the command-line encrypt is treated as an output: its file is checked through the reference decryptor instead of byte equality"],
         extra_cov=c15_extra),
